@@ -72,6 +72,34 @@ def c13_1(ctx):
         ctx.check(gg.exit not in gg.reachable_from(ex), 'order:none-rejected', f.site(lp), 'a statement no variant accepts is rejected', 'falls through')
 
 
+def c13_dispatch(ctx):
+    ctx.rule('C13.9', 'the generator dispatch forwards the statement unchanged to the instruction / macro generator', 2)
+    d = ctx.repo.func('bespokeasm.assembler.bytecode.generator.BytecodeGenerator.generate_bytecode_parts')
+    res = resolver(ctx, d, inline=False)
+    names = [p.arg for p in d.call_params]
+    seen = set()
+    for c in ast.walk(d.node):
+        if not (isinstance(c, ast.Call) and isinstance(c.func, ast.Attribute) and c.func.attr == 'generate_bytecode_parts'):
+            continue
+        gen = unparse(c.func.value)
+        tgt = ctx.repo.func(f'bespokeasm.assembler.bytecode.generator.{"instruction" if "Instruction" in gen else "macro"}.{gen}.generate_bytecode_parts')
+        b = bind_args(c, tgt)
+        tn = [p.arg for p in tgt.call_params]
+        # parameter k of the target receives parameter k of the dispatcher (the first is the instruction / macro object itself)
+        ok = all(unparse(b.get(tp)) == names[i] for i, tp in enumerate(tn)) and len(b) == len(tn)
+        kind = 'Instruction' if 'Instruction' in gen else 'InstructionMacro'
+        cl = facts_at(ctx, d, c, res)
+        ok = ok and any(('isinstance', names[0], kind, True) in cc and len(cc) == 1 for cc in cl)
+        seen.add(kind)
+        ctx.check(ok, f'dispatch:{gen}', d.site(c), f'a {kind} is handed to {gen} with the line id, mnemonic, operand text, model and zone manager it was given, in that order',
+                  f'{unparse(c)[:160]} under {describe_facts(cl)}')
+    if seen != {'Instruction', 'InstructionMacro'}:
+        ctx.refute('dispatch:both-kinds', d.site(), 'instructions and macros are both dispatched', str(sorted(seen)))
+    g = ctx.cfg(d)
+    rets = [r for r in returns(d) if r.value is not None and not (isinstance(r.value, ast.Call) and isinstance(r.value.func, ast.Attribute) and r.value.func.attr == 'generate_bytecode_parts')]
+    ctx.check(not rets, 'dispatch:nothing-else-returned', d.site(rets[0]) if rets else d.site(), 'the dispatcher returns only what a generator produced (anything else is an exit)', '; '.join(unparse(r) for r in rets))
+
+
 def c13_2(ctx):
     ctx.rule('C13.2', 'specific operand combinations before operand sets; a match returns at once', 3)
     f = ctx.repo.func(OP + '.OperandParser.find_matching_operands')
@@ -440,12 +468,14 @@ def c13_macros(ctx):
     c10_3(ctx)
 
 
-RULES = [c13_1, c13_2, c13_3, c13_4, c13_5, c13_6, c13_7, c13_8, c13_macros]
+RULES = [c13_1, c13_dispatch, c13_2, c13_3, c13_4, c13_5, c13_6, c13_7, c13_8, c13_macros]
 
 _GI = 'assembler/bytecode/generator/instruction.py'
 _OPF = 'assembler/model/operand_parser.py'
 _OSF = 'assembler/model/operand_set.py'
 MUTANTS = [
+    V('c13-dispatch-operands-stripped-of-case', 'assembler/bytecode/generator/__init__.py', "                        instruction, line_id, mnemonic, operands, isa_model, memzone_manager\n", "                        instruction, line_id, mnemonic, operands.lower(), isa_model, memzone_manager\n", 'C13.9'),
+    V('c13-dispatch-macro-first-word', 'assembler/bytecode/generator/__init__.py', "                        instruction, line_id, mnemonic, operands, isa_model, memzone_manager, parser_class\n", "                        instruction, line_id, mnemonic, operands.split(';')[0], isa_model, memzone_manager, parser_class\n", 'C13.9'),
     V('c13-enum-prefix-match', 'assembler/model/operand/types/enumeration_operand.py', "        match = re.match(fr'^{self.match_pattern}$', operand.strip())", "        match = re.match(self.match_pattern, operand.strip())", 'C13.8'),
     V('c13-relative-trailing-text', 'assembler/model/operand/types/relative_address.py', "        if match.end() != len(operand.strip()):\n            return None\n", "", 'C13.8'),
     V('c13-register-no-end-anchor', 'assembler/model/operand/types/register.py', "            fr'^{self.match_pattern}$',\n            operand.strip(),\n            flags=re.IGNORECASE,", "            fr'^{self.match_pattern}',\n            operand.strip(),\n            flags=re.IGNORECASE,", 'C13.8'),
